@@ -58,25 +58,62 @@ def scenario_for(cls, variant):
     elif cls == "quantized_relu":
       slope = 0.25 if "leaky" in variant else 0.0
       ste = "noste" not in variant
-      q = ip.call(Q.qcls(ip, cls), [SNum(bits), SNum(integer), 0, slope], {"qnoise_factor": fv, "use_ste": ste})
+      clipk = "ub" if "_ub" in variant else ("noclip" if "_noclip" in variant else "q")
+      kw2 = {"qnoise_factor": fv, "use_ste": ste}
+      if clipk == "ub":
+        kw2.update({"relu_upper_bound": 6.0, "is_quantized_clip": False})
+      elif clipk == "noclip":
+        kw2.update({"is_quantized_clip": False})
+      q = ip.call(Q.qcls(ip, cls), [SNum(bits), SNum(integer), 0, slope], kw2)
       n = bits - (1 if slope else 0)
-      top = P(integer) - P(integer - n)
-      ip.assume(z3.And(xe != 0, xe != top))
-      sur = z3.If(xe > top, z3.RealVal(0), z3.If(xe > 0, z3.RealVal(1), zreal(slope)))
+      if clipk == "q":
+        top = P(integer) - P(integer - n)
+      elif clipk == "ub":
+        top = z3.RealVal(6)
+      else:
+        top = None
+      ip.assume(xe != 0)
+      if top is not None:
+        ip.assume(xe != top)
+        sur = z3.If(xe > top, z3.RealVal(0), z3.If(xe > 0, z3.RealVal(1), zreal(slope)))
+        nonzero_region = z3.And(xe > 0, xe < top)
+      else:
+        sur = z3.If(xe > 0, z3.RealVal(1), zreal(slope))
+        nonzero_region = xe > 0
       expected = sur if ste else (1 - f) * sur
-      nonzero_region = z3.And(xe > 0, xe < top)
       s.hints.extend([integer, integer - n])
+      rep.update({"clip": clipk})
     elif cls == "quantized_po2":
-      ste = variant == "ste"
-      q = ip.call(Q.qcls(ip, cls), [SNum(bits)], {"qnoise_factor": fv, "use_ste": ste})
+      ste = "noste" not in variant
+      mvv = SNum(P(z3.Int("mvexp")), "float") if "_mv" in variant else None
+      if mvv is not None:
+        ip.assume(z3.And(z3.Int("mvexp") >= 1, z3.Int("mvexp") <= 20))
+        s.vars["mvexp"] = z3.Int("mvexp")
+        rep["mvexp"] = z3.Int("mvexp")
+      q = ip.call(Q.qcls(ip, cls), [SNum(bits), mvv], {"qnoise_factor": fv, "use_ste": ste})
       expected = z3.RealVal(1) if ste else 1 - f
       nonzero_region = z3.BoolVal(True)
     elif cls == "quantized_relu_po2":
       slope = 0.25 if "leaky" in variant else 0
-      q = ip.call(Q.qcls(ip, cls), [SNum(bits), None, slope], {"qnoise_factor": fv})
+      ste = "noste" not in variant
+      mvv = None
+      if "_mv" in variant:
+        c = z3.Int("mvexp")
+        ip.assume(z3.And(c >= 1, c <= 20))
+        s.vars["mvexp"] = c
+        rep["mvexp"] = c
+        mvv = SNum(P(c), "float")
+        s.hints.append(c)
+      q = ip.call(Q.qcls(ip, cls), [SNum(bits), mvv, slope], {"qnoise_factor": fv, "use_ste": ste})
       ip.assume(xe != 0)
-      expected = z3.If(xe > 0, z3.RealVal(1), zreal(slope))
-      nonzero_region = xe > 0
+      base = z3.If(xe > 0, z3.RealVal(1), zreal(slope))
+      if mvv is not None:
+        ip.assume(xe != P(c))
+        base = z3.If(xe > P(c), z3.RealVal(0), base)
+        nonzero_region = z3.And(xe > 0, xe < P(c))
+      else:
+        nonzero_region = xe > 0
+      expected = base if ste else (1 - f) * base
     elif cls == "quantized_tanh":
       q = ip.call(Q.qcls(ip, cls), [SNum(bits)], {})
       # hard tanh surrogate 2*clip(x/2+1/2,0,1)-1: slope 1 on (-1,1); output clip [-1, 1-2^-n]
@@ -143,12 +180,16 @@ def bounds(vars_):
 def cases(tier):
   out = []
   table = [("quantized_bits", ["ste", "noste"]), ("quantized_linear", ["ste"]),
-           ("quantized_relu", ["ste", "noste", "leaky_ste", "leaky_noste"]),
-           ("quantized_po2", ["ste", "noste"]), ("quantized_relu_po2", ["plain", "leaky"]),
+           ("quantized_relu", ["ste", "noste", "leaky_ste", "leaky_noste", "ste_ub", "leaky_ste_ub", "noste_ub",
+                               "ste_noclip", "leaky_ste_noclip"]),
+           ("quantized_po2", ["ste", "noste", "ste_mv", "noste_mv"]),
+           ("quantized_relu_po2", ["plain_ste", "leaky_ste", "plain_noste", "leaky_noste", "plain_ste_mv", "leaky_ste_mv",
+                                   "plain_noste_mv", "leaky_noste_mv"]),
            ("quantized_tanh", ["hard"]), ("quantized_sigmoid", ["hard"]),
            ("binary", ["unscaled", "const"]), ("ternary", ["unscaled", "const"])]
   for cls, variants in table:
     for v in variants:
       out.append(Case(PROP, Q.QF + cls + ".__call__", v, scenario_for(cls, v), bounds=bounds,
-                      replay_kind="c06_grad", assumptions=ASSUME, setup=setup_grad, lo=-12, hi=12))
+                      replay_kind="c06_grad", assumptions=ASSUME, setup=setup_grad,
+                      lo=-130 if "po2" in cls else -12, hi=130 if "po2" in cls else 12))
   return out
